@@ -50,6 +50,16 @@ pub trait Keychain: Sized + Clone {
     fn root_key_id() -> (r: Identifier) ensures r == spec_root_key_id::<Self>();
     fn derive_key(&self, amount: u64, id: &Identifier, switch: SwitchCommitmentType) -> (r: Result<SecretKey, grin_keychain::Error>)
         ensures r matches Ok(k) ==> k == self.spec_derive(amount, *id);
+    // Pedersen commitment value*H + derive_key(..)*G; fails only where the key derivation fails
+    fn commit(&self, amount: u64, id: &Identifier, switch: SwitchCommitmentType) -> (r: Result<Commitment, grin_keychain::Error>)
+        ensures spec_commit_defined(amount, *id) ==> r is Ok;
+}
+// key derivation (and hence commit) is defined for this amount / path (A-crypto: true for every path the wallet itself derived)
+pub uninterp spec fn spec_commit_defined(amount: u64, id: Identifier) -> bool;
+pub uninterp spec fn spec_commit_from_vec(b: Seq<u8>) -> Commitment;
+impl Commitment {
+    #[verifier::external_body]
+    pub fn from_vec(v: Vec<u8>) -> (r: Commitment) ensures r == spec_commit_from_vec(v@) { unimplemented!() }
 }
 pub uninterp spec fn kernel_on_chain(excess: Commitment) -> bool;   // the node reports a kernel with this excess
 pub trait NodeClient: Sized + Clone {
@@ -280,7 +290,8 @@ impl OnionV3Address {
     pub fn to_ed25519(&self) -> (r: Result<DalekPublicKey, util::OnionV3AddressError>)
         ensures r matches Ok(p) ==> p == self.k { unimplemented!() }
 }
-impl From<OnionV3AddressErrorStub> for Error { #[verifier::external_body] fn from(e: OnionV3AddressErrorStub) -> (r: Error) ensures r is OnionV3Address { unimplemented!() } }
+impl vstd::std_specs::convert::FromSpecImpl<OnionV3AddressErrorStub> for Error { open spec fn obeys_from_spec() -> bool { true } open spec fn from_spec(e: OnionV3AddressErrorStub) -> Self { Error::OnionV3Address(e) } }
+impl From<OnionV3AddressErrorStub> for Error { #[verifier::external_body] fn from(e: OnionV3AddressErrorStub) -> (r: Error) ensures r == Error::OnionV3Address(e) { unimplemented!() } }
 // A-hash: Identifier's derived Hash/Eq obey the HashMap key model
 #[verifier::external_body]
 pub proof fn axiom_identifier_key_model() ensures vstd::std_specs::hash::obeys_key_model::<Identifier>() { }
